@@ -197,6 +197,7 @@ pub fn exec(tok: &[&str]) -> String {
             };
             if point(0x11) != point(0xEE) { "differ".to_string() } else { "same".to_string() }
         }
+        "sign_basis" => crate::sign::op_sign_basis(tok[1].parse().unwrap(), [tok[2], tok[3], tok[4], tok[5]], &unhex(tok[6]), tok[7].parse().unwrap(), tok[8].parse().unwrap()),
         "sign_salt" => crate::sign::op_sign_salt(tok[1].parse().unwrap(), &unhex(tok[2]), &unhex(tok[3]), tok[4].parse().unwrap()),
         "sign_fresh" => crate::sign::op_sign_fresh(tok[1].parse().unwrap(), &unhex(tok[2]), tok[3].parse().unwrap(), tok[4].parse().unwrap()),
         "sign_key_after_key" => crate::sign::op_key_after_key(tok[1].parse().unwrap(), tok[2]),
